@@ -486,3 +486,216 @@ def check_end(ck, prog, cfgd, rule):
         names.index("threads_end") < k for k, n in enumerate(names) if n != "threads_end")
     ck.ob(rule, "%s:threads-first" % cfgd["end_fn"], ok3, common.where(g),
           "%s: %s" % (cfgd["end_fn"], " -> ".join(names)), key="END:%s:threads-first" % cfgd["end_fn"])
+
+
+_sg = {}
+
+UNLOCKING = ("mythread_mutex_unlock", "mythread_cond_wait", "mythread_cond_timedwait")
+
+
+def _same_critical_section(fn, src, dst, dst_idx):
+    """No unlock / wait on any path from block src to element dst_idx of block dst."""
+    if src == dst:
+        between = {dst}
+    else:
+        fwd = cfg.reachable(fn, [src], stop=[dst])
+        back = cfg.reachable(fn, [dst], stop=[src], forward=False)
+        between = (set(fwd) & set(back)) | {src, dst}
+    for bid in between:
+        blk = fn.blocks[bid]
+        for j, e in enumerate(blk.elems):
+            if e is None or (bid == dst and j >= dst_idx):
+                continue
+            if any(c.get("fn") in UNLOCKING for c in ex.calls(e, into_refs=False)):
+                # an unlock inside a cycle through dst does not count when it lies after dst on the way round
+                if bid == dst and j >= dst_idx:
+                    continue
+                return False
+    return True
+
+
+def _state_graph(prog, f, cfgd, en):
+    k = (id(prog), f.key)
+    if k not in _sg:
+        keys = [fd.Key("field", "state", rec=cfgd["thr_rec"], domain=en.values(), label="tstate"),
+                fd.Key("var", "state", domain=en.values(), label="lstate")]
+        g = fd.FD(prog, f, keys, cg=common.callgraph(prog))
+        g.run([g.top_state()])
+        _sg[k] = g
+    return _sg[k]
+
+
+def check_stop_ack(ck, prog, cfgd, rule):
+    """threads_stop(wait) returns when every worker's state is the idle state.  A worker may therefore publish the
+    idle state only when nothing that the main thread relies on being finished follows: a store `state = IDLE` that is
+    followed (before the worker waits again) by accesses to data protected by the coder mutex must not be executed
+    when the worker has been told to stop."""
+    ck.rule(rule, "a stopped worker reports idle only after its last access to coder-mutex protected data")
+    sa_ = cfgd["stop_ack"]
+    f = prog.fn(sa_["worker_fn"], cfgd["file"])
+    ck.saw_function(f)
+    en = prog.enum_with(sa_["idle"], f.file)
+    idle_v, stop_v = en[sa_["idle"]], en.get(sa_.get("stop"))
+    prot = cfgd["prot"]
+    mprot = {fk for fk, v in prot.items() if "M" in (v["w"] if isinstance(v["w"], tuple) else (v["w"],))
+             and fk[0] != cfgd["thr_rec"]}
+    doms = cfg.dominators(f)
+    n = 0
+    for b, i, e in (f.iter_elems() if sa_.get("handshake", True) else ()):
+        for (l, r, op, node) in ex.writes(e):
+            fk = ex.field_key(l)
+            if not fk or fk != (cfgd["thr_rec"], "state") or r is None or ex.const_val(r) != idle_v:
+                continue
+            # accesses to M-protected data after this store, before the worker waits again (path-sensitive in the
+            # worker's state variable and its local copy, so that the idle store in the wait loop is seen to lead
+            # to the wait and not out of the loop)
+            after = None
+            g = _state_graph(prog, f, cfgd, en)
+            seen = set()
+            st = []
+
+            def scan(bid, i0):
+                blk = f.blocks[bid]
+                for j in range(i0, len(blk.elems)):
+                    ee = blk.elems[j]
+                    if ee is None:
+                        continue
+                    if any(c.get("fn") == "mythread_cond_wait" for c in ex.calls(ee, into_refs=False)):
+                        return "wait", None
+                    for m, w, rmw in lock.accesses(ee):
+                        if (m.get("rec"), m["f"]) in mprot:
+                            return "hit", (ex.line(m) or ex.line(ee), ex.show(m))
+                return None, None
+            kind, info = scan(b.id, i + 1)
+            if kind == "hit":
+                after = info
+            elif kind is None:
+                for pn in [nd for nd in g.nodes if nd[0] == b.id]:
+                    for (dst, label) in g.succ.get(pn, ()):
+                        if dst not in seen:
+                            seen.add(dst)
+                            st.append(dst)
+                while st and after is None:
+                    pn = st.pop()
+                    kind, info = scan(pn[0], 0)
+                    if kind == "hit":
+                        after = info
+                        break
+                    if kind == "wait":
+                        continue
+                    for (dst, label) in g.succ.get(pn, ()):
+                        if dst not in seen:
+                            seen.add(dst)
+                            st.append(dst)
+            n += 1
+            if after is None:
+                ck.ob(rule, "%s:idle@%d" % (f.name, n), True, common.where(f, node),
+                      "%s: `%s` is followed by no access to coder-mutex data before the next wait" % (f.name, ex.show(node)),
+                      key="STOPACK:%s:%d" % (f.name, n))
+                continue
+            # guarded by state != STOP ?
+            guarded = False
+            for d in doms.get(b.id, ()):
+                blk = f.blocks[d]
+                t = blk.term
+                if not t or "cond" not in t or len(blk.succs) != 2:
+                    continue
+                c = ex.strip(t["cond"])
+                if c.get("k") == "bin" and c["op"] in ("!=", "==") and ex.field_key(c["l"]) == (cfgd["thr_rec"], "state") \
+                        and ex.const_val(c["r"]) == stop_v:
+                    want = blk.succs[0] if c["op"] == "!=" else blk.succs[1]
+                    if want is not None and (want == b.id or want in doms.get(b.id, ())):
+                        guarded = True
+            ck.ob(rule, "%s:idle@%d" % (f.name, n), guarded, common.where(f, node),
+                  "%s: `%s` (followed by the access to %s at line %s) is not executed when the state is %s" % (
+                      f.name, ex.show(node), after[1], after[0], sa_["stop"]) if guarded else
+                  "%s(): the worker stores %s to its state and only afterwards accesses %s (line %s) under the coder "
+                  "mutex; when it has been told to stop, threads_stop() may return -- and the main thread may "
+                  "re-initialise that data -- before the worker has touched it" % (f.name, sa_["idle"], after[1], after[0]),
+                  key="STOPACK:%s:idle-before-publish" % f.name)
+    if n == 0 and sa_.get("handshake", True):
+        raise AnalysisBroken("%s: no store of %s to the worker state found" % (f.name, sa_["idle"]))
+    # the exit request is absorbing: a worker never overwrites it
+    exit_v = en[sa_["exit"]]
+    for wn in sa_.get("worker_fns", (sa_["worker_fn"],)):
+        w = prog.fn(wn, cfgd["file"])
+        wd = cfg.dominators(w)
+        k = 0
+        for b, i, e in w.iter_elems():
+            for (l, r, op, node) in ex.writes(e):
+                fk = ex.field_key(l)
+                if not fk or fk != (cfgd["thr_rec"], "state") or r is None or ex.const_val(r) == exit_v:
+                    continue
+                k += 1
+                guarded = False
+                for d in wd.get(b.id, ()):
+                    blk = w.blocks[d]
+                    t = blk.term
+                    if not t or "cond" not in t or len(blk.succs) != 2:
+                        continue
+                    c = ex.strip(t["cond"])
+                    if c.get("k") == "bin" and c["op"] in ("!=", "==") and \
+                            ex.field_key(c["l"]) == (cfgd["thr_rec"], "state") and ex.const_val(c["r"]) is not None:
+                        v = ex.const_val(c["r"])
+                        if c["op"] == "!=" and v == exit_v:
+                            want = blk.succs[0]
+                        elif c["op"] == "==" and v != exit_v:
+                            want = blk.succs[0]
+                        elif c["op"] == "==" and v == exit_v:
+                            want = blk.succs[1]
+                        else:
+                            continue
+                        if want is not None and (want == b.id or want in wd.get(b.id, ())) and \
+                                _same_critical_section(w, want, b.id, i):
+                            guarded = True
+                ck.ob(rule, "%s:no-overwrite-exit@%d" % (wn, k), guarded, common.where(w, node),
+                      "%s: `%s` is executed only when the state is not %s" % (wn, ex.show(node), sa_["exit"]) if guarded
+                      else "%s(): `%s` can overwrite a pending %s request from lzma_end()/threads_end(): the worker "
+                           "then waits forever and mythread_join() never returns" % (wn, ex.show(node), sa_["exit"]),
+                      key="STOPACK:%s:overwrites-exit" % wn)
+
+
+def check_init_quiesce(ck, prog, cfgd, rule):
+    """The init function may store to coder members that worker threads access only after the old workers were
+    stopped or ended (or when the coder record was just allocated)."""
+    ck.rule(rule, "re-initialisation stores to worker-visible members only after the old workers are quiescent")
+    q = cfgd["init_quiesce"]
+    f = prog.fn(q["init_fn"], cfgd["file"])
+    ck.saw_function(f)
+    visible = {}
+    for wn in q["worker_fns"]:
+        w = prog.fn(wn, cfgd["file"])
+        for b, i, e in w.iter_elems():
+            for m, wr, rmw in lock.accesses(e):
+                if m.get("rec") == cfgd["coder_rec"]:
+                    visible.setdefault(m["f"], wn)
+    if len(visible) < 3:
+        raise AnalysisBroken("%s: worker functions access only %d coder members" % (cfgd["file"], len(visible)))
+    n = 0
+    seen = set()
+    for b, i, e in f.iter_elems():
+        for (l, r, op, node) in ex.writes(e):
+            for x in ex.walk(l):
+                if x.get("k") == "mem" and x.get("rec") == cfgd["coder_rec"] and x["f"] in visible:
+                    if x["f"] in seen:
+                        continue
+                    ok = _all_paths_call(f, b, i, q["calls"]) or _dominated_by_call(f, b, i, "lzma_alloc")
+                    if not ok and x["f"] in q.get("except", {}):
+                        ck.ob(rule, "%s:%s" % (f.name, x["f"]), True, common.where(f, node),
+                              "exception: " + q["except"][x["f"]], key="QUIESCE:%s:%s" % (f.name, x["f"]))
+                        seen.add(x["f"])
+                        continue
+                    if ok:
+                        continue
+                    seen.add(x["f"])
+                    n += 1
+                    ck.ob(rule, "%s:%s" % (f.name, x["f"]), False, common.where(f, node),
+                          "%s() stores to coder->%s (line %s) on a path where the worker threads of the previous "
+                          "session have not been stopped or ended yet, while %s() accesses that member" % (
+                              f.name, x["f"], ex.line(node), visible[x["f"]]),
+                          key="QUIESCE:%s:%s" % (f.name, x["f"]))
+    for fld in sorted(visible):
+        if fld not in seen:
+            ck.ob(rule, "%s:%s" % (f.name, fld), True, common.where(f),
+                  "%s: every store to coder->%s (used by %s) follows %s or the allocation of the coder" % (
+                      f.name, fld, visible[fld], "/".join(q["calls"])), key="QUIESCE:%s:%s" % (f.name, fld))
